@@ -181,7 +181,7 @@ def gen_case(ch: Chooser, excl=()):
     feats = g.entity_docs.get("_feats", set())
     return {"part": "A", "files": files, "marks": marks, "expected": model.canon_project(proj),
             "classes": sorted(["A:style:" + s for s in styles] + ["A:marks:" + ("custom" if marks else "default")] +
-                              (["A:include-file"] if "include-split" in used else []) +
+                              (["A:include-file"] if "include-split" in used else []) + (["A:include-empty"] if "include-empty" in used else []) +
                               ["A:" + f for f in feats]),
             "nontrivial": len(styles) >= 2}
 
@@ -263,6 +263,8 @@ def check(case) -> Result:
                 res.fail("attach:" + sig.split(".")[0].split(":")[0], "attachment: " + msg)
             elif sig.startswith(("missing:", "extra:")):
                 res.fail("tree:" + sig, msg)
+            elif sig.endswith(":missing-field") and "/" not in msg.split(":")[0]:
+                res.fail("tree:file-dropped", msg)        # a whole source file is absent from the tree
         for sig, msg in model.diff(exp, doc_only(rendered)):
             if sig.endswith("doctr:length") or ".doctr" in sig:
                 res.fail("render:" + sig.split(".")[0].split(":")[0], "rendering: " + msg)
